@@ -21,6 +21,7 @@ import (
 	"os/exec"
 	"path/filepath"
 	"regexp"
+	"strconv"
 	"strings"
 	"time"
 
@@ -59,6 +60,7 @@ type Case struct {
 	O     Opts            `json:"o"`
 	In    string          `json:"in"`
 	Flags []string        `json:"flags"`
+	Type  []string        `json:"typeargs"` // cli: replaces --type=<lang> (e.g. ["--mime=text/css"])
 	Exp   json.RawMessage `json:"exp"`
 }
 
@@ -310,6 +312,8 @@ func spans(src string, d []string) []string {
 
 // ---------------------------------------------------------------- XML / SVG (encoding/xml RawToken)
 
+var numRe = regexp.MustCompile(`[+-]?(?:[0-9]+\.?[0-9]*|\.[0-9]+)(?:[eE][+-]?[0-9]+)?`)
+var numListRe = regexp.MustCompile(`^(?:[+-]?(?:[0-9]+\.?[0-9]*|\.[0-9]+)(?:[eE][+-]?[0-9]+)?)(?:[ ,]+[+-]?(?:[0-9]+\.?[0-9]*|\.[0-9]+)(?:[eE][+-]?[0-9]+)?)+$`)
 var numUnitRe = regexp.MustCompile(`^([+-]?(?:[0-9]+\.?[0-9]*|\.[0-9]+)(?:[eE][+-]?[0-9]+)?)([a-zA-Z%]*)$`)
 
 func qname(n xml.Name) string {
@@ -344,6 +348,12 @@ func xmlTokens(src string) (toks []Tok, bad bool) {
 					tok.K = "AN" // attribute whose whole value is number + optional unit
 					tok.B = lib.Bytes(m[1])
 					tok.V = strings.ToLower(m[2])
+				} else if numListRe.MatchString(val) {
+					// a list of numbers (viewBox, points, ...): one AN token per number, named key#index
+					for i, n := range numRe.FindAllString(val, -1) {
+						toks = append(toks, Tok{K: "AN", N: qname(a.Name) + "#" + strconv.Itoa(i+1), T: name, Q: ord, B: lib.Bytes(n)})
+					}
+					continue
 				}
 				toks = append(toks, tok)
 			}
@@ -579,6 +589,9 @@ func runCLI(bin, dir string, c Case) (out string, rc int, msg string) {
 		lib.Fatal("write: %v", err)
 	}
 	args := []string{"--type=" + cliType[c.Lang]}
+	if len(c.Type) > 0 {
+		args = append([]string{}, c.Type...)
+	}
 	args = append(args, c.Flags...)
 	args = append(args, "-o", dst, src)
 	cmd := exec.Command(bin, args...)
